@@ -49,7 +49,8 @@ def generate(ctx):
                # kernel trainers: tensor-valued kernel arguments (documented: registered as buffers of the cell's state), annealed
                # in place during the run - trainer state a checkpoint has to carry
                "tensor_kwargs": rng.choice(([] if i % 6 == 4 else [[]]) + [["post_learning_rate"], ["post_learning_rate", "pre_learning_rate"]]),
-               "anneal_at": sorted(rng.sample(range(1, 9), 2)), "vmon_pre": rng.random() < 0.5}
+               "anneal_at": sorted(rng.sample(range(1, 9), 2)), "vmon_pre": rng.random() < 0.5,
+               "dmon": [True, False][(i // 2) % 2]}
 
 
 def _mk_reducer(desc, dt, dur):
@@ -103,6 +104,12 @@ class System:
             # some of these monitors look at the neuron BEFORE it steps: what they fold first after a restore is restored state
             self.vmon = observe.StateMonitor(red, "voltage", self.parts.neurons[self.first_out], as_prehook=bool(desc.get("vmon_pre")))
             self.vmon.register()
+        # a user-attached monitor of another kind: the change of a computed attribute over each connection call
+        self.dmon = None
+        if desc.get("dmon"):
+            first_conn = self.parts.conns[sorted(self.parts.conns)[0]]
+            self.dmon = observe.DifferenceMonitor(observe.CAReducer(dt), "synapse.current", first_conn)
+            self.dmon.register()
         self.classifier = None
         if desc["classifier"]:
             self.classifier = learn.MaxRateClassifier(tuple(self.parts.neurons[self.first_out].shape), 3, decay=0.1)
@@ -142,6 +149,8 @@ class System:
             m["classifier"] = self.classifier
         if self.vmon is not None:
             m["voltage_monitor"] = self.vmon
+        if self.dmon is not None:
+            m["difference_monitor"] = self.dmon
         return m
 
     def checkpoint(self):
@@ -196,11 +205,13 @@ def run_case(ctx, desc):
         ctx.count("checkpoint_positions_checked")
         if desc.get("vmon") and desc.get("vmon_pre"):
             ctx.count("checkpoints_with_a_monitor_reading_state_before_the_step")
+        if desc.get("dmon"):
+            ctx.count("checkpoints_with_a_difference_monitor")
         if desc.get("grown") and (desc["delay"] or desc["reducer_duration"]):
             ctx.count("checkpoints_of_histories_grown_by_setters")
         try:
             # RecurrentSerial creates its feedback-spike buffer on the first step, like the lazily shaped recorders
-            lazy = desc["trainer"] != "none" or desc["reducer"] != "none" or desc["kind"] == "recurrent" or bool(desc.get("vmon"))
+            lazy = desc["trainer"] != "none" or desc["reducer"] != "none" or desc["kind"] == "recurrent" or bool(desc.get("vmon")) or bool(desc.get("dmon"))
             if k == 0 and lazy:
                 # a never-run source has unshaped lazily-initialised recorders: nothing to transfer yet
                 ctx.count("k0_with_lazy_recorders_skipped")
